@@ -11,7 +11,7 @@
    F-sat class) and "no claim makes another user's rightful claim fail"; both are covered by the correspondence only.
    Statements only. *)
 From MD.Model Require Import Base Ownable Epoch PoolMath Types PoolManager FarmManager Chain.
-From MD.Proofs Require Import WeightProofs FarmProofs RewardProofs FarmCustody FarmCustodyChain BankProofs TxFarm.
+From MD.Proofs Require Import WeightProofs FarmProofs RewardProofs FarmCustody FarmCustodyChain BankProofs TxFarm EmissionBound.
 
 (* over ALL histories (any users, any interleaving, rejected operations, injected faults): the recorded payouts of
    every farm of every reachable world stay within what the farm was funded with; together with C05 (the farm manager's
@@ -68,8 +68,25 @@ Theorem C06_claim_transaction_pays_exactly_what_rewards_quotes : forall w sender
     end.
 Proof. exact claim_tx_balances. Qed.
 
+(* THE PER-EPOCH EMISSION BOUND (conditional): every reward entry is floor(rate * user weight / total weight)
+   (C06_every_reward_within_budget_and_after_cursor); for ANY set of users whose weights in that epoch add up to at most the
+   total weight used as the divisor, these floors add up to at most the farm's emission rate - and over any number of epochs
+   to at most rate x number of epochs. The premise (sum of the users' weights <= total) is C10's clause; it fails only in the
+   saturating-subtraction class F-sat, which is exactly where the known finding lets payouts of one epoch exceed the emission. *)
+Theorem C06_epoch_emission_bound : forall rate total ws,
+  0 <= rate -> 0 < total -> zsum ws <= total ->
+  zsum (map (fun w => rate * w / total) ws) <= rate.
+Proof. exact epoch_emission_bound. Qed.
+
+Theorem C06_emission_bound_over_epochs : forall rate (epochs : list (Z * list Z)),
+  0 <= rate -> Forall (fun tw => 0 < fst tw /\ zsum (snd tw) <= fst tw) epochs ->
+  zsum (map (fun tw => zsum (map (fun w => rate * w / fst tw) (snd tw))) epochs) <= rate * Z.of_nat (List.length epochs).
+Proof. exact emission_bound_over_epochs. Qed.
+
 Print Assumptions C06_every_reward_within_budget_and_after_cursor.
 Print Assumptions C06_claimed_amount_bounded.
 Print Assumptions C06_no_epoch_paid_twice.
 Print Assumptions C06_payouts_never_exceed_funding_in_any_reachable_world.
 Print Assumptions C06_claim_transaction_pays_exactly_what_rewards_quotes.
+Print Assumptions C06_epoch_emission_bound.
+Print Assumptions C06_emission_bound_over_epochs.
